@@ -10,7 +10,7 @@ EXPLANATION = ("Real nnana.get_feature_nn_indices / get_nn_distances / get_nn_ro
                "sklearn's KD-tree replaced by a brute-force specification whose comparisons fork the path; scipy Rotation by the polynomial algebra. "
                "Per path the reported neighbours, distances, particle-frame offsets, angular distances and relative orientations are compared with "
                "independent formulas; a second run on the rigidly moved lists must give the same values.")
-ASSUMPTIONS = ["query list 1..2 particles, neighbour list 2..3, tomogram labels enumerated (incl. a tomogram missing from one list), k in {1,2}",
+ASSUMPTIONS = ["query list 1..2 particles, neighbour list 2..3, tomogram labels enumerated (incl. a tomogram missing from one list), k in {1,2}; row labels 0..N-1 and, in one job, descending gapped labels that differ between the two lists (as left by selections without index reset)",
                "positions in [-100,100]^3 (quick: neighbours differ from the query along one symbolic axis plus concrete offsets), pixel size in [0.1,20]; distance ties excluded",
                "rigid motion: rotation about the z axis by a symbolic angle plus a symbolic translation (quick); arbitrary zxz rotation (thorough)"]
 OUTSIDE = ["lists with more than 3 particles per tomogram", "optimality of the KD-tree itself (the specification stub IS brute force): what is checked of the repository is the per-tomogram split, index->id mapping, scaling and frames around it",
@@ -157,7 +157,7 @@ CONFIGS = {"one": ((1,), (1, 1)), "two": ((1, 2), (1, 1, 2)), "disjoint": ((1, 3
            "pair": ((1, 1), (1, 1))}             # two query particles and two candidates in ONE tomogram: with k = 2 the rank-major / particle-major order of the rows matters   # the tomogram with FEWER than k neighbours comes before a larger one          # query list stored with tomogram 3 before tomogram 1 (a merged list), both shared
 
 
-def h_nn(env, config="one", k=1, sym_pos="x", cube=False):
+def h_nn(env, config="one", k=1, sym_pos="x", cube=False, labels=False):
     nn = env.module("nnana")
     cm = env.module("cryomotl")
     Q, N = _lists(env, CONFIGS[config], sym_pos, cube)
@@ -170,6 +170,10 @@ def h_nn(env, config="one", k=1, sym_pos="x", cube=False):
             db = sum((u - v) * (u - v) for u, v in zip(_pos(q), _pos(b)))
             env.assume(env.not_(env.eq(da, db)))
     ma, mn = mk_motl(env, cm, Q), mk_motl(env, cm, N)
+    if labels:
+        # row labels as a selection without index reset leaves them: descending and gapped, different in the two lists (round 5, lesson of C07-10)
+        ma.df.index = [2 * len(Q) - 2 * i + 1 for i in range(len(Q))]
+        mn.df.index = [3 * len(N) - 3 * i + 2 for i in range(len(N))]
     st = nn.get_nn_stats(ma, mn, pixel_size=px, nn_number=k)
     _check_stats(env, st, Q, N, k, px)
 
@@ -270,7 +274,7 @@ def h_motion_lemmas(env):
 
 def jobs(tier, seed):
     j = [("h_nn", {"config": "one", "k": 1, "sym_pos": "x"}), ("h_nn", {"config": "three", "k": 1, "sym_pos": "x"}),
-         ("h_nn", {"config": "disjoint", "k": 1, "sym_pos": "x"}),
+         ("h_nn", {"config": "disjoint", "k": 1, "sym_pos": "x"}), ("h_nn", {"config": "one", "k": 1, "sym_pos": "x", "labels": True}),
          ("h_nn", {"config": "one", "k": 1, "sym_pos": "xyz"}),
          ("h_nn", {"config": "one", "k": 2, "sym_pos": "xyz", "cube": True}), ("h_nn", {"config": "small_first", "k": 2, "sym_pos": "x", "cube": True}),
          ("h_nn", {"config": "disjoint", "k": 2, "sym_pos": "x", "cube": True}), ("h_nn", {"config": "rev", "k": 1, "sym_pos": "x", "cube": True}), ("h_nn", {"config": "pair", "k": 2, "sym_pos": "x", "cube": True}), 
